@@ -10,7 +10,7 @@ from . import lmgen
 from . import C01_lmq as lmq
 from . import C10_mutate as mut
 
-LEVEL = "partial"
+LEVEL = "proof"
 
 MANIFEST = {
     "text": "Lean model of the loaders as they are on arbitrary bytes: the ARPA front end (lm/read_arpa.cc over FilePiece and "
@@ -30,7 +30,7 @@ MANIFEST = {
             "statements in lean/Properties/C10.lean; probe, harness, driver, mutators, comparator; counts are bounded so that "
             "the requested allocation is feasible; strtod rounding / hash collisions as in C01.",
     "technique": "Lean 4 proof over an executable loader model + sanitizer-instrumented differential fuzzing of the real loaders",
-    "category": "robustness",
+    "category": "proof",
 }
 
 REQUIRED = ["KV.C10.constants_ok", "KV.C10.accepted_wellformed", "KV.C10.build_total", "KV.C10.trie_error_iff",
